@@ -24,6 +24,7 @@ def run(ctx):
     ctx.rule("R04.d", "discard_events restores copies of the queues taken before the body (not aliases)", floor=2)
     ctx.rule("R04.e", "update(...) captures the previous values (of every given key) and links before applying, and _ParametersRestorer.__exit__ re-applies them through _update", floor=3)
     ctx.rule("R04.f", "trigger re-submits the CURRENT values of the named parameters (plus the transient True of Events) under the trigger flag", floor=1)
+    ctx.rule("R04.h", "flush model (abstract interpretation on small queues): every queued watcher runs exactly once in (precedence, queue position) order with the last event per watched parameter; cascaded events are delivered in a further round", floor=1)
     ctx.not_decided += ["delivery counts and event contents under arbitrary nestings of batch/update/discard/trigger (need execution)"]
 
     # ------------------------------------------------------------ R04.a
@@ -268,3 +269,8 @@ def run(ctx):
     (ctx.ok if ok else ctx.fail)("R04.f", tr, upd[0][0] if upd else tr.node,
                                  "trigger submits {name: current value for name in names} merged with the Event autotrigger values" if ok else
                                  "trigger no longer re-submits exactly the current values of the named parameters (it would alter values)")
+
+    # the model-level rule comes last: if the interpreter cannot follow an edited flush,
+    # the structural findings above are still reported
+    from checks.shared import flush_model
+    flush_model(ctx, "R04.h")
